@@ -143,7 +143,10 @@ impl<M: MemBuilder> AnyVecRaw<M> {
         where M::Mem: MemResizable
     {
         let new_len = cmp::max(self.len, min_capacity);
-        self.mem.resize(new_len);
+        // Never grow. No-op, if the capacity is already below the limit.
+        if new_len < self.capacity(){
+            self.mem.resize(new_len);
+        }
     }
 
     #[inline]
